@@ -238,7 +238,8 @@ func Use(t *T) {
 // inside the braces is a stand-alone @ignore marker (whatever that marker covers, it covers the same with and without the remark).
 func ZZC12TrailingNote() {
 	annT := nd.EnumPad("annT", " @constructor NewT", " @immutable", " plain")
-	ign := nd.EnumPad("ign", " @ignore CTOR01", " @ignore IMM01", " @ignore ALL", " plain")
+	// the marker is pinned (one path per spelling): a reader that parses the comment byte by byte then runs on concrete text
+	ign := nd.PinStr(nd.EnumPad("ign", " @ignore CTOR01", " @ignore IMM01", " @ignore ALL", " plain"))
 	holes := []nd.Hole{{"annT", annT}, {"ign", ign}}
 	count := func(src, tag string) int {
 		prog := nd.LoadProgram([]nd.File{{Pkg: "zzmod/d", Name: "d.go", Src: src}}, holes)
